@@ -70,7 +70,7 @@ Section Complete.
     pose proof (Z.mod_pos_bound ((c * x) mod q + r) q Hq) as Bm. fold m2 in Bm.
     pose proof (elem_pow g r Hg ltac:(lia)) as El. unfold elem in El. rewrite El. cbn [negb].
     rewrite Z.abs_eq by lia. destruct (q <=? m2) eqn:Q2; [lia|].
-    rewrite (fpowm_spec g q m2 p Hp Hq Bm Ht).
+    rewrite (fpowm_alias_spec g q m2 p Hp Hq Bm Ht).
     unfold mpz_powm. destruct (c <? 0) eqn:C0; [lia|].
     rewrite <- powm_mul by lia.
     rewrite (powm_inverse p q g Hp Hq Hg (x * c)) by nia.
@@ -166,7 +166,9 @@ Section Complete.
       pose proof (Z.mod_pos_bound (v - (c1 * alpha) mod q) q Hq) as B.
       rewrite <- powm_mul by lia. rewrite <- powm_add by nia.
       apply (powm_cong p q b Hp Hq Hb); [nia|lia|].
-      rewrite Zplus_mod_idemp_r. rewrite Zminus_mod_idemp_r. f_equal. ring.
+      rewrite Zplus_mod_idemp_r.
+      replace (alpha * c1 + (v - (c1 * alpha) mod q)) with (alpha * c1 + v - (c1 * alpha) mod q) by ring.
+      rewrite Zminus_mod_idemp_r. f_equal. ring.
     Qed.
 
     Theorem or_complete_first y2 g1 g2 alpha raw1 raw2 raw3 c1 c2 r1 r2 :
@@ -188,11 +190,10 @@ Section Complete.
       pose proof (Z.mod_pos_bound (v1 - ((c - w) mod q * alpha) mod q) q Hq) as Br1.
       rewrite (Z.mod_small v2 q) by lia.
       unfold or_verify. fold p q g. cbn [negb]. rewrite !Z.abs_eq by lia.
-      destruct (q <=? _) eqn:Q1; [lia|]. destruct (q <=? v2) eqn:Q2; [lia|]. cbn [orb].
+      repeat match goal with |- context [q <=? ?a] => destruct (q <=? a) eqn:?; [lia|] end. cbn [orb].
       unfold mpz_powm.
-      destruct ((c - w) mod q <? 0) eqn:S1; [lia|]. destruct (_ <? 0) eqn:S2; [lia|].
-      destruct (w <? 0) eqn:S3; [lia|]. destruct (v2 <? 0) eqn:S4; [lia|].
-      unfold y1 at 1. rewrite (or_known g1 alpha ((c - w) mod q) v1 Hg1 Ha) by lia.
+      repeat match goal with |- context [?a <? 0] => destruct (a <? 0) eqn:?; [lia|] end.
+      change (powm y1 ((c - w) mod q) p) with (powm (powm g1 alpha p) ((c - w) mod q) p). rewrite (or_known g1 alpha ((c - w) mod q) v1 Hg1 Ha) by lia.
       fold t1 t2. fold c. rewrite (or_split c w B3).
       unfold c at 1. unfold or_challenge. fold p q. rewrite Zmod_mod. fold (or_challenge H G h y1 y2 g1 g2 t1 t2).
       now rewrite Z.eqb_refl.
@@ -217,11 +218,10 @@ Section Complete.
       pose proof (Z.mod_pos_bound (v2 - ((c - w) mod q * alpha) mod q) q Hq) as Br2.
       rewrite (Z.mod_small v1 q) by lia.
       unfold or_verify. fold p q g. cbn [negb]. rewrite !Z.abs_eq by lia.
-      destruct (q <=? v1) eqn:Q1; [lia|]. destruct (q <=? _) eqn:Q2; [lia|]. cbn [orb].
+      repeat match goal with |- context [q <=? ?a] => destruct (q <=? a) eqn:?; [lia|] end. cbn [orb].
       unfold mpz_powm.
-      destruct (w <? 0) eqn:S1; [lia|]. destruct (v1 <? 0) eqn:S2; [lia|].
-      destruct ((c - w) mod q <? 0) eqn:S3; [lia|]. destruct (_ <? 0) eqn:S4; [lia|].
-      unfold y2 at 1. rewrite (or_known g2 alpha ((c - w) mod q) v2 Hg2 Ha) by lia.
+      repeat match goal with |- context [?a <? 0] => destruct (a <? 0) eqn:?; [lia|] end.
+      change (powm y2 ((c - w) mod q) p) with (powm (powm g2 alpha p) ((c - w) mod q) p). rewrite (or_known g2 alpha ((c - w) mod q) v2 Hg2 Ha) by lia.
       fold t1 t2. fold c. rewrite (Z.add_comm w). rewrite (or_split c w B3).
       unfold c at 1. unfold or_challenge. fold p q. rewrite Zmod_mod. fold (or_challenge H G h y1 y2 g1 g2 t1 t2).
       now rewrite Z.eqb_refl.
@@ -298,7 +298,7 @@ Section Complete.
     intros E; inversion E; subst di fp' c r; clear E.
     unfold decrypt_update. cbn [negb]. rewrite Hm.
     pose proof (elem_pow c1 x Q1 Hx) as Ed. unfold elem in Ed. fold p. rewrite Ed. cbn [negb].
-    rewrite (cp_complete_plain h th c1 g x raw c0 r0 Q1 Hg Hx P). reflexivity.
+    fold g. rewrite (cp_complete_plain h th c1 g x raw c0 r0 Q1 Hg Hx P). reflexivity.
   Qed.
 
   Lemma decrypt_prove_some h th x fp c1 raw : elem c1 -> 0 <= x ->
